@@ -6,6 +6,9 @@ class Transc (α : Type) where
   log : α → α
   sqrt : α → α
   rpow : α → α → α
+  log10 : α → α
+  ceil : α → α
+  floor : α → α
 
 class Num (α : Type) extends Transc α where
   [add : Add α] [sub : Sub α] [mul : Mul α] [div : Div α] [neg : Neg α]
@@ -37,4 +40,7 @@ instance : Num Float where
   log := Float.log
   sqrt := Float.sqrt
   rpow := Float.pow
+  log10 := Float.log10
+  ceil := Float.ceil
+  floor := Float.floor
   natCast := ⟨Float.ofNat⟩
